@@ -41,6 +41,8 @@ POOL = [
     # runs of adjacent string literals, and inputs that fail right behind / inside such a run
     'char *s = "a" "b" "c";', 'char *s = "a" "b" @;', 'char *s = "ab" "cd" // x', 'char *s = "a" "b" "c', 'int *w = L"p" L"q";', 'int *w = L"a" L"b" `',
     'char *t = u8"x" u8"y" u8"z"; char *v = "1" "2";', 'void f(void) { g("a" "b", "c" "d" @); }', '_Static_assert(1, "m" "n" $@',
+    # failures inside many open parentheses, and ordinary parenthesised expressions afterwards
+    "int x = " + "(" * 60 + "1 + ;", "int y = " + "(" * 70 + "2 )) + @", "int f(int a) { return (a + 1) * ((2)); }", "int z = " + "(" * 45 + "3" + ")" * 45 + ";",
     # inputs that fail exactly at a #pragma / _Pragma token in a place the grammar cannot take one
     "int x =\n#pragma omp atomic\n 1;", "void f(void) { do x; \n#pragma q r\n while (0); }", "enum E { A,\n#pragma in enum\n B };", "int g(void)\n#pragma before body\n{ }",
 ]  # fmt: skip
